@@ -151,7 +151,22 @@ int cif_container_create_loop(cif_container_tp *c, const UChar *cat, UChar *name
     cif_loop_tp *l; (void) record(S_CLOOP);
     l = (cif_loop_tp *) malloc(sizeof *l); V_MALLOC_OK(l); l->container = c; l->loop_num = 1; l->category = 0; l->names = 0; live_handles++; *loop = l; return CIF_OK; }
 void cif_loop_free(cif_loop_tp *l) { live_handles--; free(l); }
-int cif_loop_add_packet(cif_loop_tp *l, cif_packet_tp *p) { (void) record(S_ADDP); return CIF_OK; }
+static int packet_bad, packets_added;
+int cif_loop_add_packet(cif_loop_tp *l, cif_packet_tp *p) {
+    /* the packet handed to the store holds, per column, the value parsed for it (the parse_value stub yields n/a values) or
+     * the unknown value where the document supplied none (documented recovery for a partial packet) */
+    int lk = loop_of(pos < NTOK && isval(script[pos]) ? pos : pos - 1), b, t, nc, col = 0; struct entry_s *e;
+    (void) record(S_ADDP);
+    if (lk < 0 || p == NULL) { packet_bad = 1; return CIF_OK; }
+    b = loop_body_start(lk); t = loop_term(b); nc = loop_ncols(lk);
+    for (e = p->map.head; e != NULL && col < 4; e = (struct entry_s *) e->hh.next, col++) {
+        int have = (b + packets_added * nc + col) < t;
+        if (e->as_value.kind != (have ? CIF_NA_KIND : CIF_UNK_KIND)) packet_bad = 1;
+    }
+    if (col != nc) packet_bad = 1;
+    packets_added++;
+    return CIF_OK;
+}
 int cif_container_prune(cif_container_tp *c) { return CIF_OK; }
 static cif_container_tp *mkframe(cif_container_tp *parent) { cif_container_tp *f = (cif_container_tp *) malloc(sizeof *f); V_MALLOC_OK(f); f->cif = 0; f->id = 9; f->code = 0; f->code_orig = 0; f->parent_id = 1; live_handles++; return f; }
 int cif_container_create_frame(cif_container_tp *c, const UChar *code, cif_frame_tp **frame) { (void) record(S_CFRAME); *frame = mkframe(c); return CIF_OK; }
@@ -209,6 +224,9 @@ void harness(void) {
     V_ASSERT(!skip_violation, "no handler callback, syntax callback or store operation is made for a bypassed entity");
     V_ASSERT(!after_stop_violation, "END or a positive handler result stops all further callbacks and store operations");
     V_ASSERT(!order_violation, "stored items carry the name that preceded their value");
+#ifndef DUP_AT
+    V_ASSERT(!packet_bad, "each stored packet holds the values parsed for it, and the unknown value for columns the document left out");
+#endif
     V_ASSERT(sc.skip_depth >= 0, "the skip depth never goes negative");
     if (d0 > 0) { V_ASSERT(sc.skip_depth == d0 && nseq == 0 && rc == CIF_OK, "a production entered while skipping makes no callback, stores nothing and restores the skip depth"); V_COVER_OPT("entered skipping"); }
     else V_ASSERT(sc.skip_depth <= 1, "on exit at most the 'skip my later siblings' mark remains");
